@@ -41,18 +41,18 @@ every program, environment, fuel bound and well-typed input, if the run is insid
 exactly the statically assigned types — every slot, deep. -/
 theorem run_preserves_types (env : Env) (fuel : Nat) (i : Instr) (st st' : List Val) (ts : List Ty) (tr : TRes)
     (hst : StackTy st ts) (hty : typeInstr false i ts = some tr)
-    (hg : Spec.eval true env fuel i st ≠ .err) (hrun : Impl.run env fuel i st = .ok st') :
+    (hs : Spec.eval true env fuel i st ≠ .stuck) (hg : Spec.eval true env fuel i st ≠ .offguard) (hrun : Impl.run env fuel i st = .ok st') :
     ∃ ts', tr = .ok ts' ∧ StackTy st' ts' ∧ st'.map typeOf = ts' := by
-  rw [C01.run_eq_reference env fuel i st hg] at hrun
+  rw [C01.run_eq_reference env fuel i st hs hg] at hrun
   obtain ⟨ts', h1, h2⟩ := preservation env fuel i st st' ts tr hst hty hrun
   exact ⟨ts', h1, h2, h2.map_typeOf⟩
 
 /-- a program typed as always failing (FAILWITH in tail position) never returns a stack -/
 theorem failing_type_never_returns (env : Env) (fuel : Nat) (i : Instr) (st st' : List Val) (ts : List Ty)
     (hst : StackTy st ts) (hty : typeInstr false i ts = some .failed)
-    (hg : Spec.eval true env fuel i st ≠ .err) : Impl.run env fuel i st ≠ .ok st' := by
+    (hs : Spec.eval true env fuel i st ≠ .stuck) (hg : Spec.eval true env fuel i st ≠ .offguard) : Impl.run env fuel i st ≠ .ok st' := by
   intro hrun
-  obtain ⟨ts', h1, _⟩ := run_preserves_types env fuel i st st' ts _ hst hty hg hrun
+  obtain ⟨ts', h1, _⟩ := run_preserves_types env fuel i st st' ts _ hst hty hs hg hrun
   cases h1
 
 /-- the storage of a contract run: the final stack of a well-typed contract body is one
@@ -60,9 +60,9 @@ theorem failing_type_never_returns (env : Env) (fuel : Nat) (i : Instr) (st st' 
 of the declared types -/
 theorem storage_has_declared_type (env : Env) (fuel : Nat) (i : Instr) (st : List Val) (ts : List Ty) (r : Val) (a b : Ty)
     (hst : StackTy st ts) (hty : typeInstr false i ts = some (.ok [.pair a b]))
-    (hg : Spec.eval true env fuel i st ≠ .err) (hrun : Impl.run env fuel i st = .ok [r]) :
+    (hs : Spec.eval true env fuel i st ≠ .stuck) (hg : Spec.eval true env fuel i st ≠ .offguard) (hrun : Impl.run env fuel i st = .ok [r]) :
     ∃ x y, r = .pair x y ∧ HasTy x a ∧ HasTy y b ∧ typeOf y = b := by
-  obtain ⟨ts', h1, h2, _⟩ := run_preserves_types env fuel i st [r] ts _ hst hty hg hrun
+  obtain ⟨ts', h1, h2, _⟩ := run_preserves_types env fuel i st [r] ts _ hst hty hs hg hrun
   cases h1
   cases h2 with
   | cons hv _ =>
@@ -75,12 +75,13 @@ theorem map_keeps_key_type (env : Env) (fuel : Nat) (body : Instr) (m : Val) (st
     (k v v' : Ty) (ts : List Ty)
     (hst : StackTy (m :: st) (.map k v :: ts))
     (hbody : typeInstr false body (.pair k v :: ts) = some (.ok (v' :: ts)))
-    (hg : Spec.eval true env fuel (.MAP body) (m :: st) ≠ .err)
+    (hs : Spec.eval true env fuel (.MAP body) (m :: st) ≠ .stuck)
+    (hg : Spec.eval true env fuel (.MAP body) (m :: st) ≠ .offguard)
     (hrun : Impl.run env fuel (.MAP body) (m :: st) = .ok st') :
     ∃ r rest, st' = r :: rest ∧ typeOf r = .map k v' ∧ HasTy r (.map k v') ∧ StackTy rest ts := by
   have hty : typeInstr false (.MAP body) (.map k v :: ts) = some (.ok (.map k v' :: ts)) := by
     simp [typeInstr, hbody]
-  obtain ⟨ts', h1, h2, _⟩ := run_preserves_types env fuel (.MAP body) (m :: st) st' _ _ hst hty hg hrun
+  obtain ⟨ts', h1, h2, _⟩ := run_preserves_types env fuel (.MAP body) (m :: st) st' _ _ hst hty hs hg hrun
   cases h1
   cases h2 with
   | cons hv hrest => exact ⟨_, _, rfl, hv.typeOf_eq, hv, hrest⟩
